@@ -24,6 +24,31 @@ def fuzz(name, run, fuzztime, **kw):
 
 
 CHECKS = {
+    "C01": {
+        "quick": [
+            plain("regress", "^TestRegressC01"),
+            rapid("encode", "^TestC01Encode$", 12000, 3),
+            rapid("logger", "^TestC01Logger$", 8000, 1),
+        ],
+        "thorough": [
+            plain("regress", "^TestRegressC01"),
+            rapid("encode", "^TestC01Encode$", 150000, 12, timeout=3000),
+            rapid("logger", "^TestC01Logger$", 100000, 4, timeout=3000),
+            fuzz("fuzz", "^FuzzC01$", "120s"),
+        ],
+    },
+    "C02": {
+        "quick": [
+            plain("regress", "^TestRegressC02"),
+            rapid("tree", "^TestC02Tree$", 10000, 3),
+            rapid("scalar", "^TestC02Scalar$", 40000, 1),
+        ],
+        "thorough": [
+            plain("regress", "^TestRegressC02"),
+            rapid("tree", "^TestC02Tree$", 150000, 12, timeout=3000),
+            rapid("scalar", "^TestC02Scalar$", 500000, 4, timeout=3000),
+        ],
+    },
     "C17": {
         "quick": [
             plain("regress", "^TestRegressC17"),
@@ -58,6 +83,16 @@ ASSUMPTIONS = {
 TRUST = "Trusted base: Go toolchain/runtime, rapid's generators and shrinker, the reference model/oracle code in /verif/harness/props, and the standard-library packages used as reference implementations. Search-based: absence of a counterexample in the generated cases is not a proof."
 
 META = {
+    "C01": {
+        "technique": "property-based testing (rapid): generated EncoderConfig x Entry x With-chain x field trees against a byte-level JSON validity predicate; differential logger-path vs direct encoder; coverage-guided fuzzing of the same property",
+        "level_text": "Field trees (every constructor family, nesting to depth 3-4, namespaces inside nested objects/array elements, marshalers failing after a partial emit, panicking/nil stringers and errors, unencodable reflected values), hostile keys/strings and every combination of built-in, nil, no-op and layout sub-encoders are generated; each encoded entry must end with the configured line ending, contain no raw control byte, be valid UTF-8 and be accepted as exactly one object by a strict JSON parse; through a Logger the sink must see exactly one Write per entry with the same bytes. Exploration: the input space is unbounded, the oracle is a total validity predicate, so many small generated cases are the fitting evidence.",
+        "level_note": TRUST + " encoding/json (json.Valid and Decoder.Token) is the reference JSON syntax checker. Custom user sub-encoders that append several values are outside the quantifier (built-in, nil, no-op, layouts).",
+    },
+    "C02": {
+        "technique": "property-based testing (rapid): Spec-derived reference encoding compared with the token-decoded output (order and duplicates preserved), numeric round trips bit-for-bit, differential against zapcore.MapObjectEncoder",
+        "level_text": "Every generated field tree carries its own expected ordered tree (computed from the typed Spec, never through zap's Field.AddTo); the decoded line must equal metadata (documented order and omission rules) + context + call-site fields + stack trace, with integers as decimal text, floats/complex by strconv round trip bit-for-bit, strings with U+FFFD replacement, base64 binary, documented error expansion (key, keyVerbose, keyCauses), times/durations per configured built-in encoder and reflected values token-equal to encoding/json; the same fields added to MapObjectEncoder must give the same nesting, keys and typed values. Exploration over an unbounded value space with boundary tables.",
+        "level_note": TRUST + " strconv, time.Format, encoding/json and encoding/base64 are the reference implementations of the documented representations. D3 (DESIGN.md): TimeKey set with a nil EncodeTime is outside the C02 domain (zap.Config rejects it); times outside the int64-nanosecond range are only checked for token kind under epoch encoders (UnixNano is undefined there).",
+    },
     "C17": {
         "technique": "property-based testing (rapid): op-sequence generation vs reference line model, metamorphic re-partitioning, coverage-guided fuzzing of the same property",
         "level_text": "Generated Write/Sync/Close histories over newline-heavy byte streams are compared message-for-message with a pending-line reference model; two independent partitions of one stream must log identical messages; disabled/switching levels must log nothing while disabled. Exploration is the right level: the property quantifies over unbounded streams and partitions, and the writer is small enough that short sequences reach every branch (fast path, buffered path, empty interior lines, Sync/Close).",
